@@ -27,31 +27,114 @@ func validate(n node) error {
 	})
 }
 
-func isLeftRecursive(root *strct) (found bool) {
-	defer func() { _ = recover() }()
+// isLeftRecursive reports whether "root" can be re-entered before a token has been consumed: directly or
+// through other productions, in any alternative, and also after sub-expressions that can match nothing.
+func isLeftRecursive(root *strct) bool {
+	nullable := nullableNodes(root)
 	seen := map[node]bool{}
-	_ = visit(root.expr, func(n node, next func() error) error {
-		if found {
-			return nil
-		}
-		switch n := n.(type) {
-		case *strct:
-			if root.typ == n.typ {
-				found = true
-			}
-
-		case *sequence:
-			if !n.head {
-				panic("done")
-			}
-		}
-		if seen[n] {
-			return nil
+	// leftmost reports whether root is among the productions that can be entered at the position where n starts.
+	var leftmost func(n node) bool
+	leftmost = func(n node) bool {
+		if n == nil || seen[n] {
+			return false
 		}
 		seen[n] = true
-		return next()
-	})
-	return
+		switch n := n.(type) {
+		case *strct:
+			return root.typ == n.typ || leftmost(n.expr)
+		case *sequence:
+			for s := n; s != nil; s = s.next {
+				if leftmost(s.node) {
+					return true
+				}
+				if !nullable[s.node] {
+					break
+				}
+			}
+		case *disjunction:
+			for _, child := range n.nodes {
+				if leftmost(child) {
+					return true
+				}
+			}
+		case *union:
+			for _, member := range n.disjunction.nodes {
+				if leftmost(member) {
+					return true
+				}
+			}
+		case *group:
+			return leftmost(n.expr)
+		case *capture:
+			return leftmost(n.node)
+		case *negation:
+			return leftmost(n.node)
+		case *lookaheadGroup:
+			return leftmost(n.expr)
+		}
+		return false
+	}
+	return leftmost(root.expr)
+}
+
+// nullableNodes computes (as a least fixed point) the nodes reachable from root that can match without
+// consuming a token.
+func nullableNodes(root *strct) map[node]bool {
+	nullable := map[node]bool{}
+	canBeEmpty := func(n node) bool {
+		switch n := n.(type) {
+		case *strct:
+			return nullable[n.expr]
+		case *sequence:
+			for s := n; s != nil; s = s.next {
+				if !nullable[s.node] {
+					return false
+				}
+			}
+			return true
+		case *disjunction:
+			for _, child := range n.nodes {
+				if nullable[child] {
+					return true
+				}
+			}
+		case *union:
+			for _, member := range n.disjunction.nodes {
+				if nullable[member] {
+					return true
+				}
+			}
+		case *group:
+			switch n.mode {
+			case groupMatchZeroOrOne, groupMatchZeroOrMore:
+				return true
+			case groupMatchNonEmpty:
+				return false
+			}
+			return nullable[n.expr]
+		case *capture:
+			return nullable[n.node]
+		case *lookaheadGroup:
+			return true
+		}
+		return false
+	}
+	for changed := true; changed; {
+		changed = false
+		seen := map[node]bool{}
+		_ = visit(root, func(n node, next func() error) error {
+			if seen[n] {
+				return nil
+			}
+			seen[n] = true
+			if !nullable[n] && canBeEmpty(n) {
+				nullable[n] = true
+				changed = true
+			}
+			return next()
+		})
+	}
+	return nullable
 }
 
 func indent(s string) string {
